@@ -46,7 +46,8 @@ class _Body:
     def value(self, n):
         w = self.where
         if isinstance(n, ast.Lambda):
-            return ('lam', pyexpr.lambda_tree(n, self.nargs, None, w))
+            cenv = {k: ('c', v) for k, v in self.env.items() if isinstance(v, Fraction)}
+            return ('lam', pyexpr.lambda_tree(n, self.nargs, cenv, w))
         if isinstance(n, ast.List):
             return [self.value(e) for e in n.elts]
         if isinstance(n, ast.Name):
